@@ -34,7 +34,8 @@ PROPS["C04"] = dict(
     quick_n=160, thorough_n=2500,
     rule="pairs of tables ingested through the real sorter/inserter (0..2 blocks quick, 0..4 thorough; 1..3 columns; "
          "single/composite/absent key) related by identity/emptiness/random edits/nested/disjoint/block-edge deletions, "
-         "diffed with diff.DiffTables; non-trivial = a side is empty, or a side has >=2 blocks, or the diff has added, "
+         "diffed with diff.DiffTables; one case in eight diffs tables RECEIVED through the real packfile sender/receiver (one or both sides; columns shuffled so "
+         "that the key is not the leading columns); non-trivial = a side is empty, or a side has >=2 blocks, or the diff has added, "
          "removed and modified rows together; distinct = distinct (op, input)",
     modelled="pkg/diff/iterate.go (findOverlappingBlocks, getBlockIndices, iterateAndMatch), pkg/diff/diff.go (diffRows), objects.BlockIndex.Get",
     assumptions=["meow hashes of distinct keys/rows of a run are distinct (hash values are taken from the Go run)",
@@ -109,9 +110,12 @@ PROPS["C02"] = dict(
 PROPS["C03"] = dict(
     registered=True,
     level_text="Kernel-checked theorem C03_ingest_inv: every table produced by the sorter/inserter pipeline satisfies all clauses of the decidable invariant tableInv (row count, 255-row blocks, strictly ascending keys, block index = (H key, H row) per row and sorted by key hash, table index = first key per block). The same tableInv is evaluated by Lean on every real table dump (with hashes recomputed by the harness) together with doctor's self-diagnosis; offsets b*255+i address row i of block b (C03_offsets).",
-    level_note=LEVEL_NOTE + "Producers covered by the theorem and runs: ingest (commit; merge results and doctor re-ingest go through the same sorter/inserter). Tables received over the wire are checked by C07's runs with the same predicate, not by a theorem here.",
+    level_note=LEVEL_NOTE + "Producers covered by the theorem: ingest (commit; merge results and doctor re-ingest go through the same sorter/inserter). Tables received over the wire are checked by the runs (here and in C07) with the same predicate and against the model's ingest of the same rows, not by a theorem.",
     lean_modules=["WrglModel.Props.C03"],
-    quick_n=240, thorough_n=3000, rule=_INGEST_RULE + "; producers: ingest (others are exercised by C05/C07 runs)",
+    quick_n=240, thorough_n=3000, rule=_INGEST_RULE + "; producers: ingest, and (one case in four) receipt over the wire: the table is ingested in a source store, "
+         "sent through the real ObjectSender/ObjectReceiver (1..2 transfers, packfile size limits, stray blocks or a block-sharing earlier table "
+         "at the destination) and the DESTINATION's copy is examined, half of them with shuffled columns so that the key is not the leading "
+         "columns (merge results and doctor re-ingest are exercised by C05/C07 runs)",
     modelled="sorter block cutting and block keys, objects.IndexBlockFromBytes/IndexBlock (as the invariant they establish), doctor.diagnoseCommit (observed)",
     assumptions=["row and key hashes are recomputed by the harness with meow over the string-list encoding"],
 )
